@@ -92,7 +92,25 @@ class Ctx:
         return c
 
     def _assumed_ok(self, subj):
-        return assumed_ok(self.assumptions, subj)
+        r = assumed_ok(self.assumptions, subj)
+        if r is None and subj[0] == "call" and subj[1] == "std::option::Option::filter" and len(subj[2]) == 2 and subj[2][1][0] == "closure":
+            # x.filter(p) is Some exactly when x is Some and p(x) holds
+            inner = self._assumed_ok(subj[2][0])
+            if inner is False:
+                return False
+            cb = self.prog.body(subj[2][1][1])
+            if cb is not None and self.level < 3:
+                caps = {n: v for _, n, v in subj[2][1][2]}
+                cc = Ctx(cb, params={2: ok_payload(subj[2][0])}, captures=caps, assumptions=self.assumptions)
+                cc.level = self.level + 1
+                rt = cc.settle().T.return_term()
+                if not (rt[0] == "const" and rt[1] == "bool"):
+                    rt = self._assumed(rt, 1)
+                if rt[0] == "const" and rt[1] == "bool":
+                    if rt[2] is False:
+                        return False
+                    return inner
+        return r
 
     def _assumed(self, t, _d=0):
         if self.assumptions and t[0] == "payload":
@@ -483,12 +501,29 @@ def _known_bool(t):
     return t
 
 
+OKNESS_PRESERVING = {"std::result::Result::map_err", "std::option::Option::ok_or", "std::option::Option::ok_or_else", "std::result::Result::ok", "std::result::Result::map", "std::option::Option::map", "std::result::Result::as_ref", "std::option::Option::as_ref", "std::option::Option::as_deref", "std::option::Option::cloned", "std::option::Option::copied", "std::result::Result::inspect_err"}
+
+
+def okness_core(subj):
+    """the value whose Ok/Some-ness decides the Ok/Some-ness of subj: `x.map_err(f)`, `x.ok_or(e)`,
+    `x.map(f)`, `x.ok()` succeed exactly when x does"""
+    for _ in range(6):
+        if subj[0] == "trybranch":
+            subj = subj[1]
+        elif subj[0] == "call" and subj[1] in OKNESS_PRESERVING and subj[2]:
+            subj = subj[2][0]
+        else:
+            break
+    return subj
+
+
 def result_test(atom):
     """if the atom tests whether a Result/Option-like subject is Ok/Some: (subject, ok_targets, err_targets)."""
     if atom[0] == "variant":
         subj = atom[1]
         if subj[0] == "trybranch":
             subj = subj[1]
+        subj = okness_core(subj)
         okt, errt = [], []
         names = set(atom[2].keys())
         if not (names & (OK_VARIANTS | ERR_VARIANTS)):
@@ -1194,7 +1229,7 @@ def ok_payload(t, tag="Ok/Some"):
         # combinators whose Ok/Some payload is determined by their receiver's payload
         alts2 = []
         for a in alts:
-            if a[0] == "call" and a[1] in ("std::option::Option::ok_or", "std::option::Option::ok_or_else", "std::result::Result::map_err", "std::result::Result::ok", "std::result::Result::or_else") and a[2]:
+            if a[0] == "call" and a[1] in ("std::option::Option::ok_or", "std::option::Option::ok_or_else", "std::result::Result::map_err", "std::result::Result::ok", "std::result::Result::or_else", "std::option::Option::filter", "std::option::Option::take") and a[2]:
                 alts2.append(("__payload_of__", a[2][0]))
             elif a[0] == "call" and a[1] in ("std::option::Option::map", "std::result::Result::map") and len(a[2]) == 2 and a[2][1][0] == "closure":
                 r = _closure_on(a[2][1], ok_payload(a[2][0]))
@@ -1293,6 +1328,14 @@ def resolve_terms(prog, t, depth=3, _memo=None, assumptions=()):
                         caps = {n: v for _, n, v in clo_[2]}
                         c2 = Ctx(prog.body(clo_[1]), params={2: ok_payload(src_[2][0])}, captures=caps, assumptions=assumptions).settle()
                         out = ("call", "vec!", (rec(c2.T.return_term(), depth - 1),))
+            if out is None and t[1] == "std::option::Option::unzip" and len(args) == 1:
+                a0 = args[0]
+                if a0[0] == "agg" and a0[2] == "None":
+                    none = ("agg", "std::option::Option", "None", ())
+                    out = ("tuple", (none, none))
+                elif a0[0] == "agg" and a0[2] == "Some" and a0[3][0][2][0] == "tuple" and len(a0[3][0][2][1]) == 2:
+                    x_, y_ = a0[3][0][2][1]
+                    out = ("tuple", (("agg", "std::option::Option", "Some", (("fld", "0", x_),)), ("agg", "std::option::Option", "Some", (("fld", "0", y_),))))
             if out is None and assumptions and t[1] == "std::option::Option::map_or" and len(args) == 3:
                 a = assumed_ok(assumptions, args[0])
                 if a is False:
